@@ -24,3 +24,9 @@ func H_LeveragedLp_ClosePositions_StopLoss() { h_c08.H_ClosePositions_StopLoss()
 //vrf:bound see h_c08.H_ClosePositions_Liquidate
 //vrf:max-paths 3000
 func H_LeveragedLp_ClosePositions_Liquidate() { h_c08.H_ClosePositions_Liquidate() }
+
+//vrf:cover done closed-at-stop-loss
+//vrf:bound see h_c08.H_BeginBlocker_TwoPositions_StopLossGate (the chain's own sweep over two positions of one pool)
+//vrf:assert-prefix C10
+//vrf:max-paths 6000
+func H_LeveragedLp_Sweep_StopLossGate() { h_c08.H_BeginBlocker_TwoPositions_StopLossGate() }
